@@ -143,7 +143,15 @@ Section Cell.
              (seqZ 0 25) ;;
     Some ((lon, lat) :: rest).
 
-  Definition lonlat_to_cell (lon lat : T) (resolution : Z) : option (out Z) :=
+  (* f64 remainder x % m (sign of the dividend): x - m * trunc(x / m) *)
+  Definition trunc (x : T) : option Z :=
+    neg <-? o_ltb OP x (z2T 0) ;;
+    if neg then option_map Z.opp (o_floor OP (o_neg OP x)) else o_floor OP x.
+  Definition frem (x m : T) : option T :=
+    q <-? trunc (x / m) ;; Some (x - m * z2T q).
+
+  (* the body of lonlat_to_cell after the longitude has been reduced (the two guards are repeated: harmless) *)
+  Definition lonlat_to_cell_core (lon lat : T) (resolution : Z) : option (out Z) :=
     if negb ((-1 <=? resolution) && (resolution <? MAX_RESOLUTION))%Z then Some Err else
     if (resolution =? -1)%Z then Some (Ok WORLD_CELL) else
     if (resolution <? 2)%Z then
@@ -156,6 +164,14 @@ Section Cell.
       | inr [] => Some Panic   (* cells[0] on an empty vector *)
       | inr (x :: rest) => b <-? best_of rest x ;; Some (serialize b)
       end.
+
+  (* lonlat_to_cell(lonlat, resolution): range check, world cell, then the longitude is reduced modulo 360
+     (`lonlat.longitude() % 360.0`, exact in f64) before anything else is computed *)
+  Definition lonlat_to_cell (lon lat : T) (resolution : Z) : option (out Z) :=
+    if negb ((-1 <=? resolution) && (resolution <? MAX_RESOLUTION))%Z then Some Err else
+    if (resolution =? -1)%Z then Some (Ok WORLD_CELL) else
+    lon' <-? frem lon (z2T 360) ;;
+    lonlat_to_cell_core lon' lat resolution.
 
   (* cell_to_lonlat(id) *)
   Definition cell_to_lonlat (id : Z) : option (out (T * T)) :=
@@ -189,13 +205,6 @@ Section Cell.
     end.
 
   (* ---- normalize_longitudes and the final ring of cell_to_boundary *)
-  (* f64 remainder x % m (sign of the dividend): x - m * trunc(x / m) *)
-  Definition trunc (x : T) : option Z :=
-    neg <-? o_ltb OP x (z2T 0) ;;
-    if neg then option_map Z.opp (o_floor OP (o_neg OP x)) else o_floor OP x.
-  Definition frem (x m : T) : option T :=
-    q <-? trunc (x / m) ;; Some (x - m * z2T q).
-
   (* while lon - center > 180 { lon -= 360 }  /  while lon - center < -180 { lon += 360 } *)
   Fixpoint wrap_down (fuel : nat) (lon center : T) : option T :=
     match fuel with
